@@ -735,5 +735,9 @@ PROPS["C10"]["explanation"] += " (CLASSFLAG) hdf_read_dims sets its DimVal flags
 PROPS["C07"]["rules"] = PROPS["C07"]["rules"] + [rules_loops.rule_read_list_indirection, rules_loops.rule_matched_index_used]
 PROPS["C07"]["explanation"] += " (IDXMAP) loops over the read list index the stored-field tables through r->item[j]. (MATCHIDX) after a field-name match the sibling tables are read at the matched index."
 
+PROPS["C04"]["rules"] = PROPS["C04"]["rules"] + [rules_cache.rule_header_limit_shared]
+PROPS["C04"]["explanation"] += " (HDRLIMIT) no routine that reads a chunk special header bounds its length by a limit HMCcreate does not enforce."
+PROPS["C20"]["rules"] = PROPS["C20"]["rules"] + [rules_cache.rule_header_limit_shared]
+
 NOT_APPLICABLE = {}
 
